@@ -51,13 +51,13 @@ VARIABLES np, nh, ph, beh, arr0,        \* configuration (constant after Init)
           arr, len, priv, lst,          \* shared backing array; per worker: slice length / private list
           idx, num,                     \* shared per-peer taskInfo.Index (0-based) and TaskNum
           pc, cur, retry, blk,          \* per worker
-          phase, failedH, redone,       \* "main" | "re" | "end"; reDownload map; heights re-downloaded
+          phase, ncfg, failedH, redone, \* "setup" | "main" | "re" | "end"; peers configured; reDownload map; heights re-downloaded
           delivered,                    \* heights of the blocks sent to blockchain (0: a wrong-height block)
           fa, faTask, reask, reaskTask, \* failed <<peer,height>> per pass / per task; re-asks per pass / per task
           act
 
 cfgv  == <<np, nh, ph, beh, arr0>>
-mech  == <<arr, len, priv, lst, idx, num, pc, cur, retry, blk, phase, failedH, redone>>
+mech  == <<arr, len, priv, lst, idx, num, pc, cur, retry, blk, phase, ncfg, failedH, redone>>
 obs   == <<delivered, fa, faTask, reask, reaskTask>>
 vars  == <<cfgv, mech, obs, act>>
 view  == <<cfgv, mech, obs>>
@@ -102,33 +102,47 @@ Exp(w) == [at |-> pc[w], cur |-> cur[w], view |-> View(w), idx |-> idx, num |-> 
 \* per-peer configurations: <<peer height k, behaviours for heights 1..m (irrelevant above k: "ok")>>
 PeerCfgs(m) == UNION {{<<k, [h \in 1..m |-> IF h <= k THEN f[h] ELSE "ok"]>> : f \in [1..k -> Kinds]} : k \in 0..m}
 
-InitWith(n, m, c, a0) ==
-  /\ np = n /\ nh = m
-  /\ ph = [p \in 1..n |-> c[p][1]]
-  /\ beh = [p \in 1..n |-> c[p][2]]
-  /\ arr0 = a0
-  /\ arr = a0
-  /\ len = [w \in 1..m |-> n]
-  /\ priv = [w \in 1..m |-> FALSE]
-  /\ lst = [w \in 1..m |-> <<>>]
-  /\ idx = [p \in 1..n |-> 0]
-  /\ num = [p \in 1..n |-> 0]
-  /\ pc = [w \in 1..m |-> "sort"]
-  /\ cur = [w \in 1..m |-> 0]
-  /\ retry = [w \in 1..m |-> 0]
-  /\ blk = [w \in 1..m |-> 0]
-  /\ phase = "main" /\ failedH = {} /\ redone = {}
-  /\ delivered = {} /\ fa = {} /\ faTask = {} /\ reask = {} /\ reaskTask = {}
+\* The configuration is drawn peer by peer (phase "setup") so that neither TLC's initial-state
+\* enumeration nor a simulation step has to build the whole configuration space at once.
+Init ==
+  \E n \in NPs, m \in NHs :
+    /\ np = n /\ nh = m
+    /\ ph = [p \in 1..n |-> 0]
+    /\ beh = [p \in 1..n |-> [h \in 1..m |-> "ok"]]
+    /\ arr0 = [i \in 1..n |-> i]
+    /\ arr = [i \in 1..n |-> i]
+    /\ len = [w \in 1..m |-> n]
+    /\ priv = [w \in 1..m |-> FALSE]
+    /\ lst = [w \in 1..m |-> <<>>]
+    /\ idx = [p \in 1..n |-> 0]
+    /\ num = [p \in 1..n |-> 0]
+    /\ pc = [w \in 1..m |-> "idle"]
+    /\ cur = [w \in 1..m |-> 0]
+    /\ retry = [w \in 1..m |-> 0]
+    /\ blk = [w \in 1..m |-> 0]
+    /\ phase = "setup" /\ ncfg = 0 /\ failedH = {} /\ redone = {}
+    /\ delivered = {} /\ fa = {} /\ faTask = {} /\ reask = {} /\ reaskTask = {}
+    /\ act = IF EmitOn THEN ToJson([op |-> "Init"]) ELSE ""
 
-Init == \E n \in NPs, m \in NHs :
-          \E c \in [1..n -> PeerCfgs(m)] :
-            \E a0 \in (IF Perms THEN PermsOf(n) ELSE {[i \in 1..n |-> i]}) :
-              /\ InitWith(n, m, c, a0)
-              /\ act = IF EmitOn
-                       THEN ToJson([op |-> "Start", np |-> n, nh |-> m, ph |-> [p \in 1..n |-> c[p][1]],
-                                    beh |-> [p \in 1..n |-> [h \in 1..m |-> IF h > c[p][1] THEN "lacks" ELSE c[p][2][h]]],
-                                    arr0 |-> a0, ret |-> "-"])
-                       ELSE ""
+SetupPeer ==
+  /\ phase = "setup" /\ ncfg < np
+  /\ \E c \in PeerCfgs(nh) :
+       /\ ph' = [ph EXCEPT ![ncfg + 1] = c[1]]
+       /\ beh' = [beh EXCEPT ![ncfg + 1] = c[2]]
+  /\ ncfg' = ncfg + 1
+  /\ UNCHANGED <<np, nh, arr0, arr, len, priv, lst, idx, num, pc, cur, retry, blk, phase, failedH, redone, obs>>
+  /\ Emit([op |-> "Setup"])
+
+\* the request arrives: pid order arr0, one worker per height
+Start ==
+  /\ phase = "setup" /\ ncfg = np
+  /\ \E a0 \in (IF Perms THEN PermsOf(np) ELSE {[i \in 1..np |-> i]}) :
+       /\ arr0' = a0 /\ arr' = a0
+       /\ Emit([op |-> "Start", np |-> np, nh |-> nh, ph |-> ph,
+                 beh |-> [p \in 1..np |-> [h \in 1..nh |-> Beh(p, h)]], arr0 |-> a0, ret |-> "-"])
+  /\ pc' = [w \in 1..nh |-> "sort"]
+  /\ phase' = "main"
+  /\ UNCHANGED <<np, nh, ph, beh, ncfg, len, priv, lst, idx, num, cur, retry, blk, failedH, redone, obs>>
 
 -----------------------------------------------------------------------------
 \* tasks.Sort(): in place on the worker's slice of the backing array
@@ -138,7 +152,7 @@ Sort(w) ==
             ELSE Sorted(SubSeq(arr, 1, len[w])) \o SubSeq(arr, len[w] + 1, Len(arr))
   /\ lst' = IF priv[w] THEN [lst EXCEPT ![w] = Sorted(@)] ELSE lst
   /\ pc' = [pc EXCEPT ![w] = "pick"]
-  /\ UNCHANGED <<cfgv, len, priv, idx, num, cur, retry, blk, phase, failedH, redone, obs>>
+  /\ UNCHANGED <<cfgv, len, priv, idx, num, cur, retry, blk, phase, ncfg, failedH, redone, obs>>
   /\ Emit([op |-> "Sort", w |-> w, exp |-> Exp(w)'])
 
 FailPc == IF phase = "main" THEN "failed" ELSE "dropped"
@@ -163,7 +177,7 @@ Pick(w) ==
                        /\ idx' = [idx EXCEPT ![p] = i - 1]
                        /\ cur' = [cur EXCEPT ![w] = p]
                        /\ pc' = [pc EXCEPT ![w] = "ask"]
-  /\ UNCHANGED <<cfgv, arr, len, priv, lst, blk, phase, failedH, redone, obs>>
+  /\ UNCHANGED <<cfgv, arr, len, priv, lst, blk, phase, ncfg, failedH, redone, obs>>
   /\ Emit([op |-> "Pick", w |-> w, exp |-> Exp(w)'])
 
 \* the request/response round trip with the picked peer
@@ -178,7 +192,7 @@ Ask(w) ==
      /\ faTask' = IF o = "fail" THEN faTask \cup {<<p, w>>} ELSE faTask
      /\ pc' = [pc EXCEPT ![w] = IF o = "fail" THEN "got_fail" ELSE "got_ok"]
      /\ blk' = [blk EXCEPT ![w] = IF o = "ok" THEN w ELSE 0]
-     /\ UNCHANGED <<cfgv, arr, len, priv, lst, idx, num, cur, retry, phase, failedH, redone, delivered>>
+     /\ UNCHANGED <<cfgv, arr, len, priv, lst, idx, num, cur, retry, phase, ncfg, failedH, redone, delivered>>
      /\ Emit([op |-> "Ask", w |-> w, p |-> p, kind |-> Beh(p, w), exp |-> Exp(w)'])
 
 Dec(n) == IF n > 0 THEN n - 1 ELSE 0
@@ -189,7 +203,7 @@ Deliver(w) ==
   /\ delivered' = delivered \cup {blk[w]}
   /\ num' = [num EXCEPT ![cur[w]] = Dec(@)]
   /\ pc' = [pc EXCEPT ![w] = "done"]
-  /\ UNCHANGED <<cfgv, arr, len, priv, lst, idx, cur, retry, blk, phase, failedH, redone, fa, faTask, reask, reaskTask>>
+  /\ UNCHANGED <<cfgv, arr, len, priv, lst, idx, cur, retry, blk, phase, ncfg, failedH, redone, fa, faTask, reask, reaskTask>>
   /\ Emit([op |-> "Deliver", w |-> w, exp |-> Exp(w)'])
 
 \* failure: releaseJob
@@ -197,7 +211,7 @@ Release(w) ==
   /\ pc[w] = "got_fail"
   /\ num' = [num EXCEPT ![cur[w]] = Dec(@)]
   /\ pc' = [pc EXCEPT ![w] = "remove"]
-  /\ UNCHANGED <<cfgv, arr, len, priv, lst, idx, cur, retry, blk, phase, failedH, redone, obs>>
+  /\ UNCHANGED <<cfgv, arr, len, priv, lst, idx, cur, retry, blk, phase, ncfg, failedH, redone, obs>>
   /\ Emit([op |-> "Release", w |-> w, exp |-> Exp(w)'])
 
 \* tasks = tasks.Remove(task)
@@ -216,7 +230,7 @@ Remove(w) ==
                   /\ len' = [len EXCEPT ![w] = L - 1]
           /\ UNCHANGED <<lst, priv>>
   /\ pc' = [pc EXCEPT ![w] = "pick"]
-  /\ UNCHANGED <<cfgv, idx, num, cur, retry, blk, phase, failedH, redone, obs>>
+  /\ UNCHANGED <<cfgv, idx, num, cur, retry, blk, phase, ncfg, failedH, redone, obs>>
   /\ Emit([op |-> "Remove", w |-> w, exp |-> Exp(w)'])
 
 \* wg.Wait() returns: the failed heights are the keys of reDownload
@@ -225,7 +239,7 @@ Waited ==
   /\ \A w \in 1..nh : pc[w] \in {"done", "failed"}
   /\ phase' = "re"
   /\ failedH' = {w \in 1..nh : pc[w] = "failed"}
-  /\ UNCHANGED <<cfgv, arr, len, priv, lst, idx, num, pc, cur, retry, blk, redone, obs>>
+  /\ UNCHANGED <<cfgv, ncfg, arr, len, priv, lst, idx, num, pc, cur, retry, blk, redone, obs>>
   /\ Emit([op |-> "Waited", failed |-> {w \in 1..nh : pc[w] = "failed"}])
 
 \* checkTask: next failed height (map order), fresh job list and taskInfo objects, sequential
@@ -244,7 +258,7 @@ Recheck(h) ==
   /\ cur' = [cur EXCEPT ![h] = 0]
   /\ retry' = [retry EXCEPT ![h] = 0]
   /\ fa' = {x \in fa : x[2] # h}                 \* a new pass starts a new NoReask scope
-  /\ UNCHANGED <<cfgv, blk, phase, failedH, delivered, faTask, reask, reaskTask>>
+  /\ UNCHANGED <<cfgv, ncfg, blk, phase, failedH, delivered, faTask, reask, reaskTask>>
   /\ Emit([op |-> "Recheck", w |-> h])
 
 TaskDone ==
@@ -252,9 +266,9 @@ TaskDone ==
   /\ failedH \subseteq redone
   /\ \A w \in 1..nh : ~Active(w)
   /\ phase' = "end"
-  /\ UNCHANGED <<cfgv, arr, len, priv, lst, idx, num, pc, cur, retry, blk, failedH, redone, obs>>
+  /\ UNCHANGED <<cfgv, ncfg, arr, len, priv, lst, idx, num, pc, cur, retry, blk, failedH, redone, obs>>
   /\ Emit([op |-> "TaskDone",
-           ret |-> [done |-> TRUE, missing |-> <<>>, reask |-> <<>>],
+           ret |-> [done |-> TRUE, missing |-> <<>>, reasked |-> <<>>],
            exp |-> [delivered |-> delivered, reaskTask |-> Cardinality(reaskTask),
                     dropped |-> {w \in 1..nh : pc[w] = "dropped"}]])
 
@@ -265,6 +279,7 @@ Step(w) == Sort(w) \/ Pick(w) \/ Ask(w) \/ Deliver(w) \/ Release(w) \/ Remove(w)
 Finished == phase = "end" /\ UNCHANGED vars
 
 Next == \/ \E w \in 1..nh : Step(w) \/ Recheck(w)
+        \/ SetupPeer \/ Start
         \/ Waited
         \/ TaskDone
         \/ Finished
@@ -296,7 +311,7 @@ OnlyRange == delivered \subseteq 1..nh
 TypeOK == /\ np \in NPs /\ nh \in NHs
           /\ \A w \in 1..nh : len[w] \in 0..np /\ retry[w] \in 0..(MaxRetry + 1) /\ cur[w] \in 0..np
           /\ \A p \in 1..np : idx[p] \in 0..(np - 1) /\ num[p] \in 0..nh
-          /\ phase \in {"main", "re", "end"}
+          /\ phase \in {"setup", "main", "re", "end"}
           /\ redone \subseteq failedH
 
 \* a stuck state (no step possible) before the end means a worker waits forever
